@@ -105,9 +105,9 @@ class Report:
             "obligations": n_ob,
             "discharged": n_dis,
             "checker_cmd": self.checker_cmd,
-            "trusted_base": self.trusted,
+            "trusted_base": list(dict.fromkeys(self.trusted)),
             "explanation": explanation,
-            "functions_under_contract": self.functions,
+            "functions_under_contract": list(dict.fromkeys(self.functions)),
             "solver_time_s": round(self.solver_ms / 1000, 2),
             "obligations_by_kind": _count(self.obligations, "kind"),
             "obligations_by_verdict": _count(self.obligations, "verdict"),
